@@ -1,6 +1,7 @@
 import Rare.Proofs.AggLoop
 import Rare.Proofs.Pipeline
 import Rare.Model.Lockset
+import Rare.Proofs.Lockset
 import Rare.Model.PipelineSkeleton
 import Rare.Gen.Skeleton
 import Rare.Proofs.AggLoopTrace
@@ -13,8 +14,11 @@ import Rare.Proofs.AggLoopTrace
   render sees every match, every intermediate render sees a prefix of the final sample history.
 * Pipeline (with C01): termination/no deadlock/no send on closed, and the matched counter is never
   below the number of matches handed to the consumer.
-* Data races: lockset discipline over the access table regenerated from /repo (partial: the table
-  is syntactic; the Go memory model is not formalised).
+* Data races: lockset discipline over the access tables regenerated from /repo – all fields of every
+  shared object, referents of reference-typed fields included (aliases, escapes), the variables
+  `RunAggregationLoop` shares with its ticker, the monitor behind `outputMutex` (partial: the tables are
+  syntactic; the Go memory model is used in the form written down in Model/Lockset.lean, its mutex rule
+  proved over an abstract trace model in Proofs/LocksetHB.lean).
 -/
 namespace Rare.C05
 open Rare.AggLoop
@@ -99,15 +103,111 @@ theorem matched_ge_sum_displayed {α : Type} [DecidableEq α] (cls : α → Pipe
 theorem skeleton_matches_source :
     Gen.Skeleton.runAggregationLoop = PipelineSkeleton.runAggregationLoop := rfl
 
-/-- Lockset discipline over the regenerated access tables: every conflicting pair of accesses to
-    the shared state of `Batcher`, `Extractor`, `ObjectPool` and the logger is either atomic on both
-    sides or protected by the common mutex. -/
+/-! ## Data races: lockset discipline over the access tables regenerated from /repo
+
+`Gen.Access` (harness/extract/access.go, go/types): every field of every object that more than one
+goroutine touches, every access site with the object accessed (the field variable or its REFERENT –
+backing array / map / pointee / closure – directly, through a local alias, or by a reference that
+escapes the function), the mutex held at that site, atomicity, and ordering edges.  `Model/Lockset.lean`
+says what the check means and why it implies data-race freedom in the Go memory model. -/
+
+/-- Lockset discipline: every conflicting pair of accesses (same field variable or same referent region,
+    at least one a write) to the shared state of `Batcher`, `Extractor`, `ExpressionIgnoreSet`,
+    `ObjectPool`, the logger and `pkg/multiterm`'s package state is atomic on both sides, or holds the
+    common mutex (at least one side exclusively) at the site of the access, or is ordered by a `go`
+    statement / terminating hand-shake; and the same for the variables `RunAggregationLoop` shares with its
+    ticker goroutine.  All fields are covered (the extractor enumerates them with go/types). -/
 theorem lockset_ok :
-    Lockset.raceFree ["newBatcher"] Gen.Access.batcher = true ∧
-    Lockset.raceFree ["New"] Gen.Access.extractor = true ∧
-    Lockset.raceFree ["NewObjectPoolEx", "NewObjectPool"] Gen.Access.objectPool = true ∧
-    Lockset.raceFree ["init"] Gen.Access.logger = true := by
-  refine ⟨by decide, by decide, by decide, by decide⟩
+    Lockset.raceFree Gen.Access.batcherCtors Gen.Access.batcher = true ∧
+    Lockset.raceFree Gen.Access.extractorCtors Gen.Access.extractor = true ∧
+    Lockset.raceFree Gen.Access.ignoreSetCtors Gen.Access.ignoreSet = true ∧
+    Lockset.raceFree Gen.Access.objectPoolCtors Gen.Access.objectPool = true ∧
+    Lockset.raceFree Gen.Access.loggerCtors Gen.Access.logger = true ∧
+    Lockset.raceFree Gen.Access.multitermGlobalsCtors Gen.Access.multitermGlobals = true ∧
+    Lockset.raceFreeRoles Gen.Access.aggLoop = true := by
+  refine ⟨by decide +kernel, by decide +kernel, by decide +kernel, by decide +kernel, by decide +kernel,
+    by decide +kernel, by decide +kernel⟩
+
+/-- The constructors exempted above are the ones the tables were made for (an added "constructor" in the
+    extractor's configuration would otherwise silently exempt a function). -/
+theorem lockset_constructors :
+    Gen.Access.batcherCtors = ["newBatcher"] ∧ Gen.Access.extractorCtors = ["New"] ∧
+    Gen.Access.ignoreSetCtors = ["NewIgnoreExpressions"] ∧
+    Gen.Access.objectPoolCtors = ["NewObjectPoolEx", "NewObjectPool"] ∧
+    Gen.Access.loggerCtors = ["init"] ∧ Gen.Access.multitermGlobalsCtors = ["init"] ∧
+    Gen.Access.aggLoopCtors = [] := by
+  refine ⟨rfl, rfl, rfl, rfl, rfl, rfl, rfl⟩
+
+/-- Referents: every access to the CONTENTS of a reference-typed shared field (slice elements, map,
+    pointee, closure – directly, through an alias, or through a reference that left the function) holds
+    a mutex, or is atomic, or is ordered with every role that writes the contents, or the contents are
+    never written once the object is shared.  (A slice header copied under the lock and read through
+    after the unlock – seeded/C05-status-unlocked-join – is an unlocked referent read.) -/
+theorem lockset_referents_guarded :
+    Lockset.referentGuarded Gen.Access.batcherCtors Gen.Access.batcher = true ∧
+    Lockset.referentGuarded Gen.Access.extractorCtors Gen.Access.extractor = true ∧
+    Lockset.referentGuarded Gen.Access.ignoreSetCtors Gen.Access.ignoreSet = true ∧
+    Lockset.referentGuarded Gen.Access.objectPoolCtors Gen.Access.objectPool = true ∧
+    Lockset.referentGuarded Gen.Access.loggerCtors Gen.Access.logger = true :=
+  ⟨Lockset.raceFree_referentGuarded _ _ lockset_ok.1,
+   Lockset.raceFree_referentGuarded _ _ lockset_ok.2.1,
+   Lockset.raceFree_referentGuarded _ _ lockset_ok.2.2.1,
+   Lockset.raceFree_referentGuarded _ _ lockset_ok.2.2.2.1,
+   Lockset.raceFree_referentGuarded _ _ lockset_ok.2.2.2.2.1⟩
+
+/-- What `lockset_ok` gives for any two access sites of the Batcher table (the unfolded reading): if they
+    touch the same location and one writes, both are atomic, or both hold the same mutex (one exclusively),
+    or one is ordered with the other's role. -/
+theorem lockset_batcher_pairs (a b : Gen.Access.Acc)
+    (ha : a ∈ Lockset.shared Gen.Access.batcherCtors Gen.Access.batcher)
+    (hb : b ∈ Lockset.shared Gen.Access.batcherCtors Gen.Access.batcher)
+    (hc : Lockset.conflict a b = true) :
+    (a.atomic = true ∧ b.atomic = true) ∨
+    (a.lock ≠ "" ∧ b.lock ≠ "" ∧ a.mutex = b.mutex ∧ (a.lock = "W" ∨ b.lock = "W")) ∨
+    (b.fn ∈ a.ord ∨ a.fn ∈ b.ord) :=
+  Lockset.safePair_cases ((Lockset.raceFree_iff _ _).mp lockset_ok.1 a ha b hb hc)
+
+/-- The monitor behind `outputMutex`: in `RunAggregationLoop` every call into the aggregator / the render
+    callback (referent region `aggstate`) holds `outputMutex` exclusively, or is made by the body after the
+    hand-shake that ended the ticker goroutine `go1`. -/
+theorem lockset_aggloop_entries :
+    (Gen.Access.aggLoop.all fun a =>
+      !(a.region == "aggstate" && a.obj == "ref") ||
+      (a.lock == "W" && a.mutex == "outputMutex") || (a.fn == "main" && a.ord.contains "go1")) = true ∧
+    Gen.Access.aggLoop.any (fun a => a.fn == "go1" && a.region == "aggstate" && a.obj == "ref") = true ∧
+    Gen.Access.aggLoop.any (fun a => a.fn == "main" && a.region == "aggstate" && a.obj == "ref" && a.lock == "") = true := by
+  refine ⟨by decide +kernel, by decide +kernel, by decide +kernel⟩
+
+/-- … and the objects inside that monitor (aggregators, terminal writers, renderers: all structs of
+    pkg/aggregation, pkg/multiterm, pkg/multiterm/termrenderers, every field) stay inside it: no `go`
+    statement in those packages, no mutex / atomic of their own, no reference to their state sent on a
+    channel, handed to a goroutine or parked in a package-level variable. -/
+theorem lockset_monitors_confined :
+    Lockset.monitorOk Gen.Access.aggregation = true ∧ Lockset.monitorOk Gen.Access.multiterm = true ∧
+    Lockset.monitorOk Gen.Access.termrenderers = true ∧
+    Gen.Access.spawns.lookup "pkg/aggregation" = some [] ∧ Gen.Access.spawns.lookup "pkg/multiterm" = some [] ∧
+    Gen.Access.spawns.lookup "pkg/multiterm/termrenderers" = some [] := by
+  refine ⟨by decide +kernel, by decide +kernel, by decide +kernel, by decide +kernel, by decide +kernel, by decide +kernel⟩
+
+/-- Coverage: every struct type declared in pkg/extractor, pkg/extractor/batchers, pkg/slicepool,
+    pkg/logger, cmd/helpers, pkg/aggregation, pkg/multiterm(/termrenderers) has a sharing class (shared with
+    its own table, monitor, confined to one goroutine, message, value) – a new struct shows up as
+    "unclassified"; `extractorInstance` is confined by a syntactic check; the packages type-check. -/
+theorem lockset_census_classified :
+    Gen.Access.census.all (fun p => p.2 != "unclassified") = true ∧
+    Gen.Access.extractorInstanceConfined = true ∧ Gen.Access.typeErrors = [] := by
+  refine ⟨by decide +kernel, rfl, rfl⟩
+
+/-- Non-vacuity of `lockset_ok`: the Batcher table with the one record the seeded change
+    C05-status-unlocked-join produces (the active-file list read through a local alias after `Unlock`)
+    is NOT race free; and the role table without the hand-shake edge (C05-buffered-done) is not either. -/
+example : Lockset.raceFree Gen.Access.batcherCtors
+    (⟨"StatusString", "activeFiles", "activeFiles", "ref", false, false, "", "", "", "arg:strings.Join@activeFiles", [], 142⟩
+      :: Gen.Access.batcher) = false := by decide +kernel
+
+example : Lockset.raceFreeRoles (Gen.Access.aggLoop.map fun a =>
+    { a with ord := if a.how == "call:func" then [] else a.ord }) = false := by
+  decide +kernel
 
 /-- Non-vacuity: a finished state is reachable for a concrete stream, and it rendered everything. -/
 example : ∃ s : St Nat, Reach (init [[1, 2]]) s ∧ s.main = .finished ∧ s.renders.getLast? = some [1, 2] := by
